@@ -25,6 +25,8 @@ HEADS = [
     ("L.reset_index()", "reset_index", True),
     ("L.partitions[[1, 0]]", "partition-filtered", True),
     ("L.partitions[1]", "partition-single", True),
+    ("L.partitions[[1, 1]]", "partition-repeated", True),
+    ("L.repartition(npartitions=1).partitions[[0, 0]]", "partition-repeated-single", True),
     ("L.merge(R, on='a')", "merge", False),
     ("L.groupby('a').c.sum()", "groupby", False),
     ("L.repartition(npartitions=1)", "repartition", True),
@@ -64,6 +66,12 @@ RESTS = [
     ("Z.partitions[[1, 1]]", "partitions-repeat"),
     ("Z.partitions[[0]] + 1", "partitions-first"),
     ("Z.tail(1, compute=False)", "tail"),
+    # operators that read the partition structure of their input (positions, neighbours, divisions) after a cut / a selection
+    ("Z.cumsum()", "cumsum"),
+    ("Z.shift(1)", "shift"),
+    ("Z.merge(R, on='a', how='left', broadcast=True)", "merge-broadcast"),
+    ("Z.shuffle('a').partitions[[0]]", "shuffle-select"),
+    ("Z.size", "size"),
     ("Z.count()", "count"),
     ("Z.to_frame()", "to_frame"),
     ("(Z * 2).max()", "mul-max"),
@@ -91,7 +99,7 @@ def configs(tier, cuts=("persist", "delayed", "legacy", "inplace")):
                 for cut in cuts:
                     if cut == "inplace" and (rtag in ("merge", "to_frame") or htag in ("index", "scalar", "scalar-expr")):
                         continue
-                    out.append(dict(head=htext, htag=htag, rest=rtext, rtag=rtag, cut=cut, nrows=nrows, nparts=nparts, ordered=hordered and rtag in ("identity", "add", "filter", "filter-series", "head", "tail", "partitions-reorder", "partitions-repeat", "partitions-first", "to_frame", "mix-add", "mix-add-mul", "mix-filter")))
+                    out.append(dict(head=htext, htag=htag, rest=rtext, rtag=rtag, cut=cut, nrows=nrows, nparts=nparts, ordered=hordered and rtag in ("identity", "add", "filter", "filter-series", "head", "tail", "partitions-reorder", "partitions-repeat", "partitions-first", "cumsum", "shift", "to_frame", "mix-add", "mix-add-mul", "mix-filter")))
     return out
 
 
